@@ -481,6 +481,12 @@ func (e *SpecEnv) locTerm(v TV) TV {
 	if l != nil && l.Kind == LocBox && len(l.Path) == 0 {
 		return TV{T: l.Ref, Ty: v.Ty, Sort: "Int", Loc: l}
 	}
+	if l != nil && l.Kind == LocGlobal && len(l.Path) == 0 {
+		// the address of a package-level variable: an opaque constant
+		n := "gaddr!" + sanitize(l.Glob.Pkg.Pkg.Path()+"."+l.Glob.Name())
+		e.C.declare(n, "Int")
+		return TV{T: n, Ty: v.Ty, Sort: "Int", Loc: l}
+	}
 	efail("pointer value has no first-order representation")
 	return TV{}
 }
